@@ -1036,3 +1036,77 @@ func RuleZ1(c *Ctx) {
 		sc.Undecided("driver", "-", "unresolved anchor: the call of the current step with a byte outside the step functions")
 	}
 }
+
+// ---------------------------------------------------------------- LS1
+
+// RuleLS1: a line-start state survives an empty line. Some states exist only to judge the
+// first bytes of a line - the closing parenthesis of a parenthesised description "on a
+// separate line", a keyword that ends a bare text - and are entered from their mid-line
+// partner when a line-end byte is consumed. Such a state L must keep itself on a further
+// line-end byte (\n and \r alike, consumed without a step change): an empty line, or the
+// second byte of a CR LF break, otherwise throws the scanner back into the mid-line state
+// with the next line's first byte never judged as a line start. The parenthesised spelling
+// with a blank line before `)` is then rejected (or read differently) while the bare
+// spelling of the same text is not.
+func RuleLS1(c *Ctx) {
+	m, _, sc, ok := scannerBase(c, "LS1", "every state entered from another state by consuming a line-end byte stays in itself on \\n and on \\r", 3)
+	if !ok {
+		return
+	}
+	defer sc.End()
+	var nl scanpds.ByteSet
+	nl[0] |= 1<<'\n' | 1<<'\r'
+	lastGoto := func(p scanpds.Path) int {
+		last := -1
+		for _, e := range p.Effects {
+			switch e.Kind {
+			case scanpds.EGoto:
+				last = e.Fn
+			case scanpds.EPopGoto, scanpds.EPushCur:
+				last = -2 // stack traffic: not a plain line-start entry
+			}
+		}
+		return last
+	}
+	lineStart := map[int]string{}
+	for _, st := range m.States {
+		for _, p := range st.Paths {
+			if p.Out != scanpds.OutNil || p.Set.And(nl).Empty() || !p.Set.SubsetOf(nl) {
+				continue
+			}
+			if to := lastGoto(p); to >= 0 && to != st.ID {
+				if _, seen := lineStart[to]; !seen {
+					lineStart[to] = st.Name
+				}
+			}
+		}
+	}
+	for _, st := range m.States {
+		from, is := lineStart[st.ID]
+		if !is {
+			continue
+		}
+		for _, b := range []byte{'\n', '\r'} {
+			key := fmt.Sprintf("%s:on-%q", st.Name, b)
+			judged := false
+			for _, p := range st.Paths {
+				if !p.Set.Has(b) {
+					continue
+				}
+				judged = true
+				to := lastGoto(p)
+				switch {
+				case p.Out == scanpds.OutErr:
+					sc.Holds(key, c.P.Pos(p.Pos), "a line end is an error here")
+				case p.Out == scanpds.OutNil && (to == -1 || to == st.ID):
+					sc.Holds(key, c.P.Pos(p.Pos), "stays in the line-start state entered from "+from)
+				default:
+					sc.Violation(key, c.P.Pos(p.Pos), "the line-start state (entered from "+from+" on a line end) leaves itself on a further line-end byte: after an empty line, or the LF of a CR LF break, the first byte of the next line is no longer judged as a line start — "+m.Describe(st, p))
+				}
+			}
+			if !judged {
+				sc.Undecided(key, "-", "no arm of the state covers this byte")
+			}
+		}
+	}
+}
